@@ -7,6 +7,7 @@ import Req.H1.Origin
 import Req.H3.BodyWrite
 import Req.H1.BodyWrite
 import Req.H2.BodyWire
+import Req.Client.AttemptOrder
 import Req.H1.RoundTrip
 import Req.Client.Replay
 import Req.Props.C01ConnSeq
@@ -383,6 +384,34 @@ def decodeH2Attempt (t : String) : Option Req.Replay.H2Attempt :=
     | none => none
   | [] => none
 
+def decodeTry (t : String) : Option Req.Attempts.Try :=
+  match t.toList with
+  | ['S'] => some .skipped
+  | ['R'] => some .response
+  | ['N'] => some (.noConn 0 false)
+  | 'E' :: rest => (String.ofList rest).toNat?.map fun k => .error k
+  | _ => none
+
+def showStage : Req.Attempts.Stage → String
+  | .altSvc => "alt" | .h2Cached => "h2" | .h3Cached => "h3" | .conn => "conn"
+
+/-- `c01attempts <kind> <idempotent> <data> <alt> <h2> <h3>`: `Transport.roundTrip` with the given
+stage outcomes (`S` skipped, `R` response, `E<k>` error after k body bytes, `N` cache miss) and a
+connection loop whose first attempt is answered: the result and the attempts that reached a
+connection (stage:body position:answered). -/
+def laneAttempts : List String → String
+  | [kind, idem, data, alt, h2, h3] =>
+    match decodeKind kind, Wire.decodeBody data, decodeTry alt, decodeTry h2, decodeTry h3 with
+    | some kind, some data, some alt, some h2, some h3 =>
+      let r : Req.Replay.Req := { kind := kind, data := data, idempotent := idem == "1" }
+      let (res, w) := Req.Attempts.roundTrip Req.Replay.Fixes.all r
+        ⟨alt, h2, h3, [⟨false, none, 0, false⟩]⟩
+      let tr := if w.isEmpty then "-" else
+        ",".intercalate (w.map fun e => s!"{showStage e.stage}:{e.pos}:{b01 e.answered}")
+      showResult res ++ " trace=" ++ tr
+    | _, _, _, _, _ => "bad-op"
+  | _ => "bad-op"
+
 /-- `c01h2retry <honest> <kind> <attempts> <data>`: attempts `A` accepted, `U` unusable connection,
 `R<k>` refused / `G<k>` GOAWAY / `P<k>` PROTOCOL_ERROR from the peer / `O<k>` other error after `k`
 more bytes of the body were read. -/
@@ -534,6 +563,7 @@ def lanes : List (String × (List String → String)) := [
   ("c01h3body", laneH3Body),
   ("c01h1body", laneH1Body),
   ("c01h2wire", laneH2Wire),
+  ("c01attempts", laneAttempts),
   ("c01pipe", lanePipe),
   ("c01h1", laneH1),
   ("c01url", laneUrl),
